@@ -25,14 +25,14 @@ func init() {
 }
 
 type winModel struct {
-	min    int64
-	sum    int64
-	cnt    int
-	maxF   int
-	drop   bool
-	next   int64
+	min     int64
+	sum     int64
+	cnt     int
+	maxF    int
+	drop    bool
+	next    int64
 	dropPos []int // positions (within the window) of drops
-	n      int   // completions folded into this window
+	n       int   // completions folded into this window
 }
 
 func (w *winModel) reset() {
